@@ -90,4 +90,92 @@ theorem last_concrete_source_wins (T : Tables) (sp : Char → Bool) (rules : Lis
   simp only [Option.map_some, List.map_append, List.map_cons, List.map_nil, Option.some.injEq]
   rw [mergeAttrs_snoc, overlay_concrete _ _ hc]
 
+/-! ### position independence -/
+
+def kwNoinherit : Text := "noinherit".toList
+
+theorem parsePart_noinherit (T : Tables) (a : Attrs) : parsePart T a kwNoinherit = some a := by
+  unfold parsePart kwNoinherit; simp
+
+/-- the word 'noinherit' is a no-op inside the word loop, wherever and however often it stands -/
+theorem parseParts_filter_noinherit (T : Tables) (ws : List Text) (a : Attrs) :
+    parseParts T a ws = parseParts T a (ws.filter (· ≠ kwNoinherit)) := by
+  induction ws generalizing a with
+  | nil => rfl
+  | cons w ws ih =>
+    by_cases hw : w = kwNoinherit
+    · subst hw
+      simp only [parseParts, parsePart_noinherit, ne_eq, not_true_eq_false, decide_false, Bool.false_eq_true,
+        not_false_eq_true, List.filter_cons_of_neg]
+      exact ih a
+    · have : decide (w ≠ kwNoinherit) = true := by simpa using hw
+      rw [List.filter_cons_of_pos (p := fun x => decide (x ≠ kwNoinherit)) this]
+      simp only [parseParts]
+      cases parsePart T a w with
+      | none => rfl
+      | some a' => exact ih a'
+
+/-- **C19-ae'' ('noinherit' is position independent).**  Two style strings that both contain 'noinherit'
+    and whose OTHER words are the same, in the same order, parse to the same attributes: the word may
+    stand first, last, in the middle or several times — it only selects the starting point
+    (`DEFAULT_ATTRS` instead of all-None), it never wipes what the other words of the string set. -/
+theorem parseStyleStr_noinherit_position (T : Tables) (sp : Char → Bool) (s1 s2 : Text)
+    (h1 : (findSub? "noinherit".toList s1).isSome = true) (h2 : (findSub? "noinherit".toList s2).isSome = true)
+    (hw : (splitWs sp s1).filter (· ≠ kwNoinherit) = (splitWs sp s2).filter (· ≠ kwNoinherit)) :
+    parseStyleStr T sp s1 = parseStyleStr T sp s2 := by
+  unfold parseStyleStr
+  simp only [h1, h2, if_true]
+  rw [parseParts_filter_noinherit T (splitWs sp s1), parseParts_filter_noinherit T (splitWs sp s2), hw]
+
+theorem setFlagByName_overlay (d a : Attrs) (f : Text) (v : Bool) :
+    setFlagByName (overlay d a) f v = (setFlagByName a f v).map (overlay d) := by
+  unfold setFlagByName
+  repeat' split
+  all_goals simp [overlay]
+
+theorem setColorByName_overlay (d a : Attrs) (f c : Text) :
+    setColorByName (overlay d a) f c = overlay d (setColorByName a f c) := by
+  unfold setColorByName
+  split <;> simp [overlay]
+
+theorem interpChain_overlay (T : Tables) (chain : List PBranch) (d a : Attrs) (part : Text) :
+    interpChain T (overlay d a) part chain = (interpChain T a part chain).map (overlay d) := by
+  induction chain with
+  | nil => simp [interpChain]
+  | cons b rest ih =>
+    simp only [interpChain]
+    split
+    · cases hact : b.act with
+      | pass => simp [PAct.run]
+      | setFlag f v => simp [PAct.run, setFlagByName_overlay]
+      | setColor f n =>
+        simp only [PAct.run]
+        cases parseColor T (part.drop n) with
+        | none => rfl
+        | some c => simp [setColorByName_overlay]
+      | unknown => simp [PAct.run]
+    · exact ih
+
+theorem parseParts_overlay (T : Tables) (ws : List Text) (d a : Attrs) :
+    parseParts T (overlay d a) ws = (parseParts T a ws).map (overlay d) := by
+  induction ws generalizing a with
+  | nil => simp [parseParts]
+  | cons w ws ih =>
+    simp only [parseParts]
+    rw [parsePart_follows_ast, parsePart_follows_ast, interpChain_overlay]
+    cases interpChain T a w Gen.C19X.parseChain with
+    | none => rfl
+    | some a' => simpa using ih a'
+
+/-- **C19-ae''' (what 'noinherit' does).**  With 'noinherit' the parsed attributes are `DEFAULT_ATTRS`
+    overlaid by EXACTLY what the same words set when parsed without it: every word of the string keeps
+    its effect, only the fields no word sets become ''/False instead of None. -/
+theorem parseStyleStr_noinherit_is_overlay (T : Tables) (he : T.emptyAttrs = noneAttrs) (sp : Char → Bool)
+    (s : Text) (hn : (findSub? "noinherit".toList s).isSome = true) :
+    parseStyleStr T sp s = (parseParts T T.emptyAttrs (splitWs sp s)).map (overlay T.defaultAttrs) := by
+  unfold parseStyleStr
+  simp only [hn, if_true]
+  rw [← parseParts_overlay, he]
+  congr 1
+
 end Ptk.C19
